@@ -20,7 +20,7 @@ import re
 
 from engine.interp import Engine
 from engine.lin import Lin
-from engine.values import Bool, Cont, Enum, Int, Ref, Struct, Top
+from engine.values import Bool, Cont, Enum, Int, Ref, Slice, Struct, Top
 from rules import lib_parse
 from rules.spec import dlt_spec
 
@@ -48,6 +48,8 @@ def name_of(eng, st, v, depth=0):
         return str(v.id)
     if isinstance(v, Enum):
         return v.name
+    if isinstance(v, Slice) and isinstance(v.base, str):
+        return v.base   # a view of a named sequence (`&vec` passed as `&[T]`)
     if isinstance(v, Int):
         return repr(v.lin)
     if isinstance(v, Struct) and v.fields:
